@@ -53,9 +53,9 @@ EP = ScalesUriParser.Endpoint('127.0.0.1', PORT)
 def strategy(tier):
   pairs = [
       (8, st.tuples(st.just('request'), st.booleans()).map(list)),
-      (5, st.tuples(st.just('reply'), st.integers(0, 30), st.sampled_from(['ok', 'ok', 'ok', 'rerr', 'bad_rerr'])).map(list)),
+      (5, st.tuples(st.just('reply'), st.integers(0, 30), st.sampled_from(['ok', 'ok', 'ok', 'rerr', 'bad_rerr', 'ok_handler_raises'])).map(list)),
       (2, st.tuples(st.just('dup'), st.integers(0, 30)).map(list)),
-      (2, st.tuples(st.just('forge'), st.sampled_from([0, 1, 1, 'unknown', 'unknown_big'])).map(list)),
+      (2, st.tuples(st.just('forge'), st.sampled_from([0, 1, 1, 'unknown', 'unknown_big', 'alias_high', 'alias_mid', 'alias_low'])).map(list)),
       (3, st.tuples(st.just('timeout'), st.integers(0, 30)).map(list)),
       (2, st.just(['hold'])),
       (2, st.just(['release'])),
@@ -88,6 +88,9 @@ class Terminal(ClientMessageSink):
 
   def AsyncProcessResponse(self, sink_stack, context, stream, msg):
     context.completions.append(msg)
+    if getattr(context, 'handler_raises', False):
+      context.handler_raises = False
+      raise RuntimeError('reply handler of request %d failed' % context.id)     # a sink above the transport blows up
 
 
 class Req(object):
@@ -317,6 +320,11 @@ class Run(object):
     self.written_unanswered.pop(r.tag, None)
     if r.timed_out:
       self.flags.add('late_reply_after_timeout')
+    if kind == 'ok_handler_raises':
+      if not r.timed_out:
+        r.handler_raises = True
+        self.flags.add('reply_handler_raised')
+      kind = 'ok'
     self.send_reply(r.tag, r, kind)
 
   def dup(self, i):
@@ -341,6 +349,14 @@ class Run(object):
       tag = max(used + [1]) + 3
     elif what == 'unknown_big':
       tag = 2 ** 24 - 5
+    elif what in ('alias_high', 'alias_mid', 'alias_low'):
+      # a never-issued tag that differs from an outstanding one only in high bits (thriftmux: 24-bit tags)
+      live = [r.tag for r in self.live() if r.tag is not None]
+      if not live or self.proto != 'thriftmux':
+        return
+      tag = live[0] + {'alias_high': 2 ** 23, 'alias_mid': 2 ** 16, 'alias_low': 2 ** 8}[what]
+      if tag in used:
+        return
     else:
       tag = what
     if self.proto == 'kafka' and tag in (0, 1):
